@@ -334,4 +334,15 @@ def expectedQueueShapes : List (String × String × String × String) := [
 
 theorem queueShapes_pin : Gen.queueShapes = expectedQueueShapes := by rfl
 
+/-- how the stores open their database.  The sqlite store opens the configured path as it is: the journal mode is sqlite's
+    default (a rollback journal on disk), which is what "an acknowledged write survives a kill, a write in flight is all or
+    nothing" (C06) rests on below the model; a data source that sets a journal mode, a synchronous level or the like changes
+    that and has to be looked at. -/
+def expectedStoreOpen : List (String × String × String) := [
+  ("internal/app/subsystems/aio/store/sqlite/sqlite.go", "\"sqlite3\"", "config.Path"),
+  ("internal/app/subsystems/aio/store/postgres/postgres.go", "\"postgres\"", "dbUrl.String()")
+]
+
+theorem storeOpen_pin : Gen.storeOpen = expectedStoreOpen := by rfl
+
 end Resonate
